@@ -135,6 +135,10 @@ class Gen:
         r = self.rng
         for _ in range(50):
             short = self.ident()
+            if self.defined and r.random() < 0.3:
+                # the same simple name in several namespaces (incl. the null one): only the full names differ
+                short = r.choice(list(self.defined)).rsplit(".", 1)[-1]
+                self.note("name:simple-name-reused")
             k = r.random()
             if k < 0.4:
                 attrs = {"name": short}
@@ -521,6 +525,16 @@ def wrong_default(rng, g, ns, t):
 def mutate(rng, schema, g, kind):
     """returns (mutated schema, description) or None when the mutation does not apply"""
     s = copy.deepcopy(schema)
+    if kind == "undefined-ref" and rng.random() < 0.35:
+        # an undotted reference, from inside a namespace N, to a name that exists only in the null namespace
+        # (the specification reads it as N.<name>, which is not defined)
+        defs = {spec_fullname(ns, n)[1] for p, n, ns, top in named_defs(s)}
+        nulls = [d for d in defs if "." not in d]
+        pos = [(p, n, ns) for p, n, ns, top in walk(s) if isinstance(n, str) and ns and p != ()]
+        cands = [(p, ns, d) for p, n, ns in pos for d in nulls if ns + "." + d not in defs]
+        if cands:
+            p, ns, d = rng.choice(cands)
+            return set_at(s, p, d), dict(kind=kind, path=list(p), name=ns + "." + d, null_namespace_name_from_namespace=True)
     if kind == "undefined-ref":
         pos = [(p, n, ns) for p, n, ns, top in walk(s) if isinstance(n, str)]
         if not pos:
